@@ -26,7 +26,9 @@ func Extract() *fx.Group {
 					continue
 				}
 				g.Str(name+"_expr", fx.Src(e))
-				g.Nat(name+"_width", fx.ConvWidth(e))
+				// the width of the ARITHMETIC (operand types of the product), not of an outermost conversion:
+				// uint64(p.Size * uint32(lss)) is a 32-bit product
+				g.Nat(name+"_width", fx.ArithWidth(e))
 			}
 		}
 	}
